@@ -65,19 +65,287 @@ func manyKeysHistory(r *engine.Run) {
 			}
 			return true
 		}
-		for i := 0; i < n; i++ {
-			if !step(i) {
-				return
-			}
-			if i%64 == 63 {
-				for _, back := range []int{0, i / 2, i - 63, i - 1} {
-					if !step(back) {
-						return
-					}
+		if manyHistoryRun(n, step) {
+			c.NonTrivial()
+			c.Outcome("many-keys/history-completed")
+		}
+	})
+}
+
+// manyHistoryRun drives one long history over argument number 0..n-1: every argument is new when
+// it is first used; every 64th step returns to argument 0 (far back, and touched regularly), to
+// argument i/2 (untouched since its first use, at a distance that grows without bound below n/2),
+// and to the arguments 63 and 1 steps back. Whatever the code under check keeps per argument - a
+// FIFO ring, an LRU list, a memo table with a capacity below n/2 - has by then replaced and
+// re-used its entries several times. step returns false to end the history (after reporting).
+func manyHistoryRun(n int, step func(i int) bool) bool {
+	for i := 0; i < n; i++ {
+		if !step(i) {
+			return false
+		}
+		if i%64 == 63 {
+			for _, back := range []int{0, i / 2, i - 63, i - 1} {
+				if !step(back) {
+					return false
 				}
 			}
 		}
+	}
+	return true
+}
+
+// manyHistoryN is the number of distinct arguments of a many-arguments history.
+func manyHistoryN(r *engine.Run) int {
+	if r.Thorough() {
+		return 1 << 17
+	}
+	return 4096
+}
+
+// manyKey is key number i of a many-keys history (pairwise distinct for i < 2^24).
+func manyKey(i int) []byte {
+	k := make([]byte, 16)
+	for j := range k {
+		k[j] = byte(0x40 + j)
+	}
+	k[0], k[5], k[10], k[15] = byte(i), byte(i>>8), byte(i>>16), byte(i*7)
+	return k
+}
+
+// manyKeysMIC (C02): data MICs, each step under a key pair not used before in the process.
+func manyKeysMIC(r *engine.Run) {
+	n := manyHistoryN(r)
+	r.Rule += fmt.Sprintf(" Many-keys history: %d steps, each a Set + Validate of a data MIC (direction, MAC version alternating) under integrity keys not used before in the process, returning to earlier keys every 64th step; compared with the specification MIC.", n)
+	r.PartWorkers("history/many-keys", []string{fmt.Sprintf("distinct key pairs:%d", n)}, 1, 1, func(c *engine.Case) {
+		ok := manyHistoryRun(n, func(i int) bool {
+			c.Eval()
+			f := spec.DataFrame{MType: byte(2 + i%4), DevAddr: 0x01020304 + uint32(i), FCnt: uint32(i), ACK: i%3 == 0, HasPort: true, FPort: 10, FRM: fillBytes(1+i%40, 0x21)}
+			p, err := buildFrame(f, nil, nil)
+			if err != nil {
+				c.Fail("harness/build", err.Error(), nil)
+				return false
+			}
+			m := micParams{v11: i%2 == 0, confFCnt: uint32(i % 7), txDR: 1, txCh: 2, fKey: manyKey(i), sKey: manyKey(i + 1<<22)}
+			if !m.v11 {
+				m.sKey = m.fKey
+			}
+			want, _ := specMIC(f, m)
+			if err := libSetMIC(p, f.Uplink(), m); err != nil || [4]byte(p.MIC) != want {
+				c.Fail("many-keys/data-mic", fmt.Sprintf("key pair number %d: library MIC %x (err %v), specification %x", i, p.MIC[:], err, want[:]), nil)
+				return false
+			}
+			if ok, err := libValidateMIC(p, f.Uplink(), m); err != nil || !ok {
+				c.Fail("many-keys/data-mic", fmt.Sprintf("key pair number %d: Validate=%v err=%v on the specification MIC", i, ok, err), nil)
+				return false
+			}
+			return true
+		})
+		if ok {
+			c.NonTrivial()
+			c.Outcome("many-keys/history-completed")
+		}
+	})
+}
+
+// manyKeysJoin (C04): join-request, rejoin and join-accept MICs (both forms) under keys not used before.
+func manyKeysJoin(r *engine.Run) {
+	n := manyHistoryN(r)
+	r.Rule += fmt.Sprintf(" Many-keys history: %d steps, each a join-request MIC, a rejoin-request MIC and a join-accept MIC (1.0 / OptNeg form alternating) under a key not used before in the process, returning to earlier keys every 64th step; compared with the specification CMACs.", n)
+	r.PartWorkers("history/many-keys", []string{fmt.Sprintf("distinct keys:%d", n), "call:3"}, 1, 1, func(c *engine.Case) {
+		ok := manyHistoryRun(n, func(i int) bool {
+			c.Eval()
+			key := manyKey(i)
+			joinEUI, devEUI := c04EUIs[1], c04EUIs[2]
+			devEUI[0] = byte(i)
+			nonce := uint16(i)
+			// join-request
+			jr := lorawan.PHYPayload{MHDR: lorawan.MHDR{MType: lorawan.JoinRequest}, MACPayload: &lorawan.JoinRequestPayload{JoinEUI: lorawan.EUI64(joinEUI), DevEUI: lorawan.EUI64(devEUI), DevNonce: lorawan.DevNonce(nonce)}}
+			wire, err := jr.MarshalBinary()
+			if err != nil {
+				c.Fail("harness/build", err.Error(), nil)
+				return false
+			}
+			want := spec.JoinMIC(key, wire[0], wire[1:len(wire)-4])
+			if err := jr.SetUplinkJoinMIC(keyOf(key)); err != nil || [4]byte(jr.MIC) != want {
+				c.Fail("many-keys/join-request-mic", fmt.Sprintf("key number %d (%x): library MIC %x (err %v), specification %x", i, key, jr.MIC[:], err, want[:]), nil)
+				return false
+			}
+			if ok, err := jr.ValidateUplinkJoinMIC(keyOf(key)); err != nil || !ok {
+				c.Fail("many-keys/join-request-mic", fmt.Sprintf("key number %d: Validate=%v err=%v on the specification MIC", i, ok, err), nil)
+				return false
+			}
+			// rejoin-request type 1 (same CMAC, other frame)
+			rj := lorawan.PHYPayload{MHDR: lorawan.MHDR{MType: lorawan.RejoinRequest}, MACPayload: &lorawan.RejoinRequestType1Payload{RejoinType: lorawan.RejoinRequestType1, JoinEUI: lorawan.EUI64(joinEUI), DevEUI: lorawan.EUI64(devEUI), RJCount1: nonce}}
+			wire, err = rj.MarshalBinary()
+			if err != nil {
+				c.Fail("harness/build", err.Error(), nil)
+				return false
+			}
+			want = spec.JoinMIC(key, wire[0], wire[1:len(wire)-4])
+			if err := rj.SetUplinkJoinMIC(keyOf(key)); err != nil || [4]byte(rj.MIC) != want {
+				c.Fail("many-keys/rejoin-request-mic", fmt.Sprintf("key number %d (%x): library MIC %x (err %v), specification %x", i, key, rj.MIC[:], err, want[:]), nil)
+				return false
+			}
+			// join-accept
+			j := jaValue{joinNonce: uint32(i) & 0xFFFFFF, netID: c04NetIDs[1], devAddr: 0x01020304, dlSettings: byte(i%2) << 7, rxDelay: 1, cfKind: i % 3}
+			ja := lorawan.PHYPayload{MHDR: lorawan.MHDR{MType: lorawan.JoinAccept}, MACPayload: j.lib()}
+			want = spec.JoinMIC(key, 0x20, j.wire())
+			if i%2 == 1 {
+				want = spec.JoinAcceptMIC11(key, 0xFF, joinEUI, nonce, 0x20, j.wire())
+			}
+			if err := ja.SetDownlinkJoinMIC(lorawan.JoinRequestType, lorawan.EUI64(joinEUI), lorawan.DevNonce(nonce), keyOf(key)); err != nil || [4]byte(ja.MIC) != want {
+				c.Fail("many-keys/join-accept-mic", fmt.Sprintf("key number %d (%x): library MIC %x (err %v), specification %x", i, key, ja.MIC[:], err, want[:]), nil)
+				return false
+			}
+			if ok, err := ja.ValidateDownlinkJoinMIC(lorawan.JoinRequestType, lorawan.EUI64(joinEUI), lorawan.DevNonce(nonce), keyOf(key)); err != nil || !ok {
+				c.Fail("many-keys/join-accept-mic", fmt.Sprintf("key number %d: Validate=%v err=%v on the specification MIC", i, ok, err), nil)
+				return false
+			}
+			return true
+		})
+		if ok {
+			c.NonTrivial()
+			c.Outcome("many-keys/history-completed")
+		}
+	})
+}
+
+// manySessions (C05): complete secured exchanges, each under a session (four keys, an address, counters) of its own.
+// The frames of a batch of devices are all sent before the first of them is received (batches of 1, 8, 96
+// and 700 devices in turn), so that whatever the library keeps per key has seen many other sessions
+// between the two ends of one exchange.
+func manySessions(r *engine.Run) {
+	n := manyHistoryN(r) / 4
+	r.Rule += fmt.Sprintf(" Many-sessions history: %d devices with their own session keys, each exchanging one 1.1 downlink (MAC commands in encrypted FOpts + encrypted payload) and one 1.0 uplink through encrypt, MIC, the wire, validation and decryption, returning to earlier devices every 64th step; the frames of a batch (1, 8, 96, 700 devices in turn) are all sent before the first is received: the receiver recovers exactly what was sent and a flipped payload byte is rejected.", n)
+	r.PartWorkers("history/many-sessions", []string{fmt.Sprintf("devices:%d", n), "frames:2", "batch sizes: 1, 8, 96, 700"}, 1, 1, func(c *engine.Case) {
+		type sent struct {
+			dev  int
+			v11  bool
+			wire []byte
+			body []byte
+			cmds []lorawan.Payload
+		}
+		keys := func(i int) (kF, kS, kE, kA []byte) {
+			return manyKey(4 * i), manyKey(4*i + 1), manyKey(4*i + 2), manyKey(4*i + 3)
+		}
+		send := func(i int, v11 bool) (sent, bool) {
+			c.Eval()
+			kF, kS, kE, kA := keys(i)
+			da := devAddrOf(0x26000000 + uint32(i))
+			fcnt := uint32(0x10000 + i)
+			port := uint8(1 + i%200)
+			body := fillBytes(3+i%50, byte(i))
+			mp := &lorawan.MACPayload{FHDR: lorawan.FHDR{DevAddr: da, FCnt: fcnt}, FPort: &port, FRMPayload: []lorawan.Payload{&lorawan.DataPayload{Bytes: append([]byte(nil), body...)}}}
+			p := lorawan.PHYPayload{MHDR: lorawan.MHDR{MType: lorawan.UnconfirmedDataDown, Major: lorawan.LoRaWANR1}, MACPayload: mp}
+			out := sent{dev: i, v11: v11, body: body}
+			if v11 {
+				out.cmds = []lorawan.Payload{&lorawan.MACCommand{CID: lorawan.DevStatusReq}, &lorawan.MACCommand{CID: lorawan.DutyCycleReq, Payload: &lorawan.DutyCycleReqPayload{MaxDCycle: uint8(i % 16)}}}
+				mp.FHDR.FOpts = []lorawan.Payload{&lorawan.MACCommand{CID: lorawan.DevStatusReq}, &lorawan.MACCommand{CID: lorawan.DutyCycleReq, Payload: &lorawan.DutyCycleReqPayload{MaxDCycle: uint8(i % 16)}}}
+			} else {
+				p.MHDR.MType = lorawan.UnconfirmedDataUp
+			}
+			fail := func(what string, err error) (sent, bool) {
+				c.Fail("many-sessions/"+what, fmt.Sprintf("device number %d (v1.1=%v): %s: %v", i, v11, what, err), nil)
+				return out, false
+			}
+			if err := p.EncryptFRMPayload(keyOf(kA)); err != nil {
+				return fail("encrypt-payload", err)
+			}
+			if v11 {
+				if err := p.EncryptFOpts(keyOf(kE)); err != nil {
+					return fail("encrypt-fopts", err)
+				}
+				if err := p.SetDownlinkDataMIC(lorawan.LoRaWAN1_1, 0, keyOf(kS)); err != nil {
+					return fail("set-mic", err)
+				}
+			} else if err := p.SetUplinkDataMIC(lorawan.LoRaWAN1_0, 0, 0, 0, keyOf(kF), keyOf(kF)); err != nil {
+				return fail("set-mic", err)
+			}
+			var err error
+			if out.wire, err = p.MarshalBinary(); err != nil {
+				return fail("encode", err)
+			}
+			return out, true
+		}
+		receive := func(s sent) bool {
+			c.Eval()
+			i, v11 := s.dev, s.v11
+			kF, kS, kE, kA := keys(i)
+			fcnt := uint32(0x10000 + i)
+			fail := func(what string, err error) bool {
+				c.Fail("many-sessions/"+what, fmt.Sprintf("device number %d (v1.1=%v): %s: %v", i, v11, what, err), nil)
+				return false
+			}
+			for tamper := 0; tamper < 2; tamper++ {
+				rx := append([]byte(nil), s.wire...)
+				if tamper == 1 {
+					rx[len(rx)-5] ^= 0x40
+				}
+				var q lorawan.PHYPayload
+				if err := q.UnmarshalBinary(rx); err != nil {
+					return fail("decode", err)
+				}
+				qm := q.MACPayload.(*lorawan.MACPayload)
+				qm.FHDR.FCnt = fcnt
+				var valid bool
+				var err error
+				if v11 {
+					valid, err = q.ValidateDownlinkDataMIC(lorawan.LoRaWAN1_1, 0, keyOf(kS))
+				} else {
+					valid, err = q.ValidateUplinkDataMIC(lorawan.LoRaWAN1_0, 0, 0, 0, keyOf(kF), keyOf(kF))
+				}
+				if err != nil || valid != (tamper == 0) {
+					c.Fail("many-sessions/validate", fmt.Sprintf("device number %d (v1.1=%v, payload byte flipped=%v): Validate=%v err=%v", i, v11, tamper == 1, valid, err), nil)
+					return false
+				}
+				if tamper == 1 {
+					continue
+				}
+				if v11 {
+					if err := q.DecryptFOpts(keyOf(kE)); err != nil {
+						return fail("decrypt-fopts", err)
+					}
+					if got, want := deepPrint(qm.FHDR.FOpts), deepPrint(s.cmds); got != want {
+						c.Fail("many-sessions/fopts", fmt.Sprintf("device number %d: receiver obtains the MAC commands %s, sent %s", i, got, want), nil)
+						return false
+					}
+				}
+				if err := q.DecryptFRMPayload(keyOf(kA)); err != nil {
+					return fail("decrypt-payload", err)
+				}
+				if len(qm.FRMPayload) != 1 || !bytes.Equal(qm.FRMPayload[0].(*lorawan.DataPayload).Bytes, s.body) {
+					c.Fail("many-sessions/payload", fmt.Sprintf("device number %d (v1.1=%v): receiver obtains %s, sent %x", i, v11, deepPrint(qm.FRMPayload), s.body), nil)
+					return false
+				}
+			}
+			return true
+		}
+		var order []int
+		manyHistoryRun(n, func(i int) bool { order = append(order, i); return true })
+		sizes := []int{1, 8, 96, 700}
+		for start, k := 0, 0; start < len(order); k++ {
+			end := start + sizes[k%len(sizes)]
+			if end > len(order) {
+				end = len(order)
+			}
+			var inFlight []sent
+			for _, i := range order[start:end] {
+				for v := 0; v < 2; v++ {
+					s, ok := send(i, v == 0)
+					if !ok {
+						return
+					}
+					inFlight = append(inFlight, s)
+				}
+			}
+			for _, s := range inFlight {
+				if !receive(s) {
+					return
+				}
+			}
+			start = end
+		}
 		c.NonTrivial()
-		c.Outcome("many-keys/history-completed")
+		c.Outcome("many-sessions/history-completed")
 	})
 }
